@@ -1,5 +1,6 @@
 import Swim.Util.Parse
 import Swim.Drv.C17
+import Swim.Drv.C10
 /-! Line-protocol driver: `<PROP> <kind> k=v ...` in, `<PROP> <id> <agree|DISAGREE> <ok|BAD:..> ...` out. -/
 open Swim.Parse
 
@@ -11,6 +12,7 @@ def dispatch (line : String) : String :=
     let id := getD fs "id" "?"
     let body := match prop with
       | "C17" => Swim.Drv.C17.handle kind fs
+      | "C10" => Swim.Drv.C10.handle kind fs
       | _ => "PARSE prop"
     s!"{prop} {id} {body}"
   | _ => "? ? PARSE line"
